@@ -11,6 +11,24 @@
 
 using namespace bfl;
 
+#ifdef BFL_VERIF
+std::function<void(FilteringAlgorithm*, int)> bfl::bfl_verif_hook;
+
+#define BFL_VERIF_POINT(k) do { if (bfl::bfl_verif_hook) bfl::bfl_verif_hook(this, k); } while (false)
+
+bool FilteringAlgorithm::bfl_verif_wait_predicate()
+{
+    return (run_ || teardown_);
+}
+
+void FilteringAlgorithm::bfl_verif_lock_unlock()
+{
+    std::lock_guard<std::mutex> lk(mtx_run_);
+}
+#else
+#define BFL_VERIF_POINT(k) do { } while (false)
+#endif
+
 
 bool FilteringAlgorithm::boot()
 {
@@ -105,10 +123,12 @@ void FilteringAlgorithm::filtering_recursion()
 {
     do
     {
+        BFL_VERIF_POINT(1);
         reset_ = false;
         filtering_step_ = 0;
 
         std::unique_lock<std::mutex> lk(mtx_run_);
+        BFL_VERIF_POINT(2);
         cv_run_.wait(lk, [this]{ return (this->run_ || this->teardown_); });
         try
         {
@@ -122,6 +142,7 @@ void FilteringAlgorithm::filtering_recursion()
             teardown_ = true;
         }
 
+        BFL_VERIF_POINT(3);
         initialization_step();
 
         while (run_condition() && !teardown_ && !reset_)
@@ -130,8 +151,11 @@ void FilteringAlgorithm::filtering_recursion()
 
             ++filtering_step_;
         }
+        BFL_VERIF_POINT(4);
     }
     while (run_condition() && (run_ || reset_) && !teardown_);
 
+    BFL_VERIF_POINT(5);
     run_ = false;
+    BFL_VERIF_POINT(6);
 }
